@@ -56,6 +56,17 @@ func (w *World) floor(prop, rule string, n int) {
 	w.floors[prop+"|"+rule] = n
 }
 
+// floorSites declares a floor for a rule whose instances are code sites rather than table entries: n is the number
+// of sites on the tree the rule was written against; merging duplicated code legitimately lowers it, so the rule
+// counts as vacuous only below half of that (at least one).
+func (w *World) floorSites(prop, rule string, n int) {
+	m := n / 2
+	if m < 1 {
+		m = 1
+	}
+	w.floors[prop+"|"+rule] = m
+}
+
 // KnownFinding is an entry of /verif/known_findings.json.
 type KnownFinding struct {
 	ID        string `json:"id"`
@@ -143,7 +154,7 @@ func (w *World) finish(prop string, verifDir string, seed int, wall float64, ext
 		floorReport[rule] = map[string]int{"instances": counts[rule], "floor": n}
 		if counts[rule] < n {
 			o := &Obligation{Property: prop, Rule: rule, Construct: "vacuity floor", Pos: "-", Verdict: Undecided,
-				Detail: fmt.Sprintf("rule matched %d instances, fewer than the %d confirmed by hand: the rule no longer finds its subject", counts[rule], n)}
+				Detail: fmt.Sprintf("rule matched %d instances, fewer than the floor of %d: the rule no longer finds its subject", counts[rule], n)}
 			w.Obs = append(w.Obs, o)
 			obs = append(obs, o)
 		}
